@@ -58,15 +58,17 @@ class KnotVector(Intface_KnotVector):
 
     def __iadd__(self, other: float) -> KnotVector:
         try:
-            return self.shift(other)
+            iter(other)
         except TypeError:
-            return self.insert(other)
+            return self.shift(other)
+        return self.insert(other)
 
     def __isub__(self, other: Union[float, Tuple[float]]):
         try:
-            return self.shift(-other)
+            iter(other)
         except TypeError:
-            return self.remove(other)
+            return self.shift(-other)
+        return self.remove(other)
 
     def __imul__(self, other: float):
         return self.scale(other)
